@@ -21,7 +21,7 @@ META = dict(
     assumptions=['the statement is relative to the library\'s own evaluator (value_of); the evaluator itself is C08'],
     min_events={'quick': {'models_checked': 4000, 'branch_models': 1500, 'built_models': 1500, 'predicate_tuples_checked': 20000, 'logics': 52},
                 'thorough': {'models_checked': 120000, 'logics': 52}},
-    budget=dict(quick=1500, thorough=2400),
+    budget=dict(quick=1500, thorough=7200),
     unit_timeout=dict(quick=900, thorough=3000),
 )
 NBUILT = dict(quick=30, thorough=1200)
